@@ -1,9 +1,196 @@
 /-
-  Props.C02 — property theorems for C02 (signature hashes). See DESIGN.md §6 C02.
+  Props.C02 — property theorems for C02 (signature hashes equal the legacy, BIP143 and BIP341
+  definitions; undefined taproot digests fail; the cache never changes a result). DESIGN.md §6 C02.
+
+  Model = GocoinV.SigHash (Model/SigHash.lean, mirrors lib/btc/tx.go, lib/btc/taproot.go,
+  lib/script/checker.go; executed by oracle_c02 and compared with the real code on every run).
+  Spec  = GocoinV.Spec.SigHash (Spec/SigHash.lean, written from the BIP texts).
+  All theorems hold for EVERY hash function `H` (they are equalities of preimages).
 -/
 import GocoinV.Model.SigHash
 import GocoinV.Spec.SigHash
+import GocoinV.Proofs.C02Cache
+import GocoinV.Proofs.C02Spec
+import GocoinV.Proofs.C02Legacy
 namespace GocoinV.Props.C02
 open GocoinV GocoinV.SigHash
+open GocoinV.Wire (Tx TxIn TxOut)
+
+/-- Legacy: for every transaction, input index in range, 32-bit hash type and script code that decodes
+    into operations, `SignatureHash` double-hashes exactly "the modified copy of the transaction (other
+    scripts blanked, OP_CODESEPARATORs removed from the script code, sequences zeroed / outputs cut for
+    NONE / SINGLE, one input for ANYONECANPAY) in the ordinary serialisation, followed by the 4-byte hash
+    type" — and returns the constant `01 00…00` exactly where the original algorithm does (SIGHASH_SINGLE
+    without a matching output). -/
+theorem legacy_preimage_eq (H : Bytes → Bytes) (tx : Tx) (scriptCode : Bytes) (idx ht : Nat)
+    (m : Spec.SigHash.SigMsg) (h : Spec.SigHash.legacy tx scriptCode idx ht = some m) :
+    signatureHash H tx scriptCode idx ht =
+      match m with
+      | .one => .const one32
+      | .msg pre => .hashed pre (H (H pre)) :=
+  legacy_eq_spec H tx scriptCode idx ht m h
+
+/-- the legacy specification is defined for every index in range and script code that decodes -/
+theorem legacy_defined (tx : Tx) (scriptCode : Bytes) (idx ht : Nat) (hi : idx < tx.ins.length)
+    (hp : (Spec.SigHash.parse scriptCode).isSome = true) :
+    (Spec.SigHash.legacy tx scriptCode idx ht).isSome = true := by
+  unfold Spec.SigHash.legacy
+  have : ¬ idx ≥ tx.ins.length := by omega
+  cases h : Spec.SigHash.parse scriptCode with
+  | none => simp [h] at hp
+  | some ops => simp only [this, ↓reduceIte]; split <;> rfl
+
+-- OPEN: `tail_irrelevant` (DESIGN §6 C02 (d)): for a script code with a decode error after the executed
+-- position gocoin drops the tail (`break`) while Core's serializer keeps part of it; every caller has
+-- verdict `false` there (evalScript fails on the undecodable opcode). That needs the script interpreter
+-- model of C01; here such script codes are outside `Spec.legacy` (it returns `none`) and are only compared
+-- model-vs-code by the harness.
+-- OPEN: `delSig_eq_findAndDelete`: Model.delSig wh sig = Spec.findAndDelete wh sig for sig.length < 76 and
+-- decodable `wh` is compared by the harness (Lean model vs Go reference, and end-to-end through
+-- VerifyTxScript with the signature embedded in the scriptPubKey) but not proved. For 76 ≤ sig.length
+-- the two DIFFER (gocoin builds the pattern with PutVlen, i.e. `len‖sig` instead of `4c len‖sig`): a
+-- signature push of ≥ 76 bytes is never removed. Such signatures fail strict DER (BIP66, buried), so no
+-- digest of a verifying signature is affected today; recorded as an observation, not a finding.
+
+/-- BIP143: for every transaction, input index, script code, amount and 32-bit hash type for which
+    BIP143 defines a message, and for every state of the cache reachable on this transaction object,
+    `WitnessSigHash` feeds exactly the BIP143 message to the double hash. -/
+theorem bip143_preimage_eq (H : Bytes → Bytes) (tx : Tx) (spent : List TxOut) (c : Cache)
+    (hc : Cache.OK H tx spent c) (sc : Bytes) (amount idx ht : Nat) (pre : Bytes)
+    (h : Spec.SigHash.bip143 (fun b => H (H b)) tx sc amount idx ht = some pre) :
+    (witnessSigHash H tx c sc amount idx ht).1 = .hashed pre (H (H pre)) := by
+  rw [(witnessSigHash_cache H tx spent c hc sc amount idx ht).1]
+  exact witness_eq_spec H tx sc amount idx ht pre h
+
+/-- BIP143 defines a message for every input index in range (so the theorem above is not vacuous). -/
+theorem bip143_defined (dsha : Bytes → Bytes) (tx : Tx) (sc : Bytes) (amount idx ht : Nat)
+    (hi : idx < tx.ins.length) : (Spec.SigHash.bip143 dsha tx sc amount idx ht).isSome = true := by
+  unfold Spec.SigHash.bip143
+  have : tx.ins[idx]? = some tx.ins[idx] := by simp [hi]
+  simp [this]
+
+/-- BIP341/BIP342: for every transaction with one spent output per input, input index in range, hash
+    type byte, annex (present or not), key path or script path (leaf hash, code separator position)
+    and every reachable cache state: where BIP341 defines the signature message, `TaprootSigHash`
+    feeds exactly `SHA256(tag)‖SHA256(tag)‖0x00‖SigMsg‖ext` to the hash. -/
+theorem bip341_preimage_eq (H : Bytes → Bytes) (tx : Tx) (spent : List TxOut) (c : Cache)
+    (hs : spent.length = tx.ins.length) (hc : Cache.OK H tx spent c) (idx ht : Nat) (hi : idx < tx.ins.length)
+    (annex : Option Bytes) (ext : Option Spec.SigHash.Ext) (pre : Bytes)
+    (h : Spec.SigHash.bip341 H tx spent idx ht annex ext = some pre) :
+    (taprootSigHash true H tx spent c (execDataOf H annex ext) idx ht ext.isSome).1 = .hashed pre (H pre) := by
+  rw [(taprootSigHash_cache true H tx spent c (by omega) hc _ idx ht _).1, taproot_spec true H tx spent idx ht annex ext hs hi, h]
+
+/-- Where BIP341 defines no digest (hash type outside {0,1,2,3,0x81,0x82,0x83}, SIGHASH_SINGLE without
+    a matching output) `TaprootSigHash` returns no digest (`nil`), whatever the cache holds. -/
+theorem bip341_undefined_is_nil (H : Bytes → Bytes) (tx : Tx) (spent : List TxOut) (c : Cache)
+    (hs : spent.length = tx.ins.length) (hc : Cache.OK H tx spent c) (idx ht : Nat) (hi : idx < tx.ins.length)
+    (annex : Option Bytes) (ext : Option Spec.SigHash.Ext)
+    (h : Spec.SigHash.bip341 H tx spent idx ht annex ext = none) :
+    (taprootSigHash true H tx spent c (execDataOf H annex ext) idx ht ext.isSome).1 = .undefined := by
+  rw [(taprootSigHash_cache true H tx spent c (by omega) hc _ idx ht _).1, taproot_spec true H tx spent idx ht annex ext hs hi, h]
+  rfl
+
+/-- the hash type a Schnorr signature asks for: byte 65 if present, else SIGHASH_DEFAULT -/
+def sigHashType (sig : Bytes) : Nat := if sig.length = 65 then (sig.getD 64 0).toNat else 0
+
+/-- Undefined is failure: if BIP341 defines no digest for the hash type carried by the signature,
+    `CheckSchnorrSignature` returns false — for every signature, public key, verification function
+    `V` (= btc.SchnorrVerify), hash function and cache state. -/
+theorem undefined_is_failure (V : Bytes → Bytes → Bytes → Bool) (H : Bytes → Bytes) (tx : Tx) (spent : List TxOut)
+    (c : Cache) (hs : spent.length = tx.ins.length) (hc : Cache.OK H tx spent c) (idx : Nat) (hi : idx < tx.ins.length)
+    (sig pubkey : Bytes) (annex : Option Bytes) (ext : Option Spec.SigHash.Ext)
+    (h : Spec.SigHash.bip341 H tx spent idx (sigHashType sig) annex ext = none) :
+    checkSchnorrSignature true V H tx spent c sig pubkey ext.isSome (execDataOf H annex ext) idx = some false := by
+  have hu := bip341_undefined_is_nil H tx spent c hs hc idx (sigHashType sig) hi annex ext h
+  unfold sigHashType at hu
+  have hp : (schnorrPlan true H tx spent c sig pubkey ext.isSome (execDataOf H annex ext) idx).1 = .fail := by
+    unfold schnorrPlan
+    dsimp only
+    generalize (if sig.length = 65 then (sig.getD 64 0).toNat else 0) = htv at hu ⊢
+    by_cases h1 : sig.length ≠ 64 ∧ sig.length ≠ 65
+    · rw [if_pos h1]
+    · rw [if_neg h1]
+      by_cases h2 : sig.length = 65 ∧ htv = 0
+      · rw [if_pos h2]
+      · rw [if_neg h2]
+        generalize taprootSigHash true H tx spent c (execDataOf H annex ext) idx htv ext.isSome = r at hu ⊢
+        obtain ⟨r1, r2⟩ := r
+        simp only at hu
+        subst hu
+        rfl
+  unfold checkSchnorrSignature
+  rw [hp]
+
+/-- Before the fix (`fixed = false`: `TaprootSigHash` returned 32 zero bytes) the statement above was
+    FALSE: for the key-path spend below (one input, one output, hash type 0x04) BIP341 defines no digest,
+    yet the verdict was whatever `SchnorrVerify` says about the signature against the all-zero message —
+    a message that does not depend on the transaction. Replayed on the real code by the harness
+    (corpus entry F1 in go/cmd/c02/e2e.go). -/
+theorem undefined_is_failure_counterexample :
+    ∃ (tx : Tx) (spent : List TxOut) (idx : Nat) (sig : Bytes),
+      spent.length = tx.ins.length ∧ idx < tx.ins.length ∧
+      (∀ H, Spec.SigHash.bip341 H tx spent idx (sigHashType sig) none none = none) ∧
+      ∀ (V : Bytes → Bytes → Bytes → Bool) (H : Bytes → Bytes) (pubkey : Bytes),
+        checkSchnorrSignature false V H tx spent {} sig pubkey false (execDataOf H none none) idx
+          = some (V pubkey (sig.take 64) zero32) := by
+  refine ⟨{ version := 2, ins := [{ prevHash := List.replicate 32 0x11, prevIdx := 0, scriptSig := [], sequence := 0xfffffffd }],
+            outs := [{ value := 90000, pkScript := [0x51] }], witness := none, lockTime := 0 },
+          [{ value := 100000, pkScript := 0x51 :: 0x20 :: List.replicate 32 0x77 }], 0,
+          List.replicate 64 0xab ++ [4], rfl, by decide, ?_, ?_⟩
+  · intro H
+    simp [Spec.SigHash.bip341, Spec.SigHash.bip341Msg, sigHashType, Spec.SigHash.validTaprootHashType]
+  · intro V H pubkey
+    simp [checkSchnorrSignature, schnorrPlan, taprootSigHash]
+
+/-- Cache transparency: for every finite sequence of digest requests (legacy, BIP143, taproot; any
+    arguments, any order) on one transaction object starting from the empty cache, each result equals
+    the result of the same request on a fresh object. (Requests are atomic: every function holds
+    `hashLock` for its whole body, so concurrent callers reduce to some such sequence.) -/
+theorem cache_transparent (fixed : Bool) (H : Bytes → Bytes) (tx : Tx) (spent : List TxOut)
+    (hs : tx.ins.length ≤ spent.length) (calls : List Call) :
+    (runCalls fixed H tx spent {} calls).1 = calls.map fun k => (step fixed H tx spent {} k).1 :=
+  runCalls_cache fixed H tx spent hs calls {} (Cache.OK_empty H tx spent)
+
+/-- Without one spent output per input the previous theorem is false, in the model as in the code: the
+    pointer `tx.tapSingleHashes` is assigned before the loops that can panic, so after a recovered
+    panic (evalScript recovers) the same object hands out a digest over all-zero hashes. -/
+theorem cache_poisoned_after_panic :
+    ∃ (tx : Tx) (k : Call), ∀ H : Bytes → Bytes,
+      (step true H tx [] {} k).1 = .panic ∧
+      (runCalls true H tx [] {} [k, k]).1 ≠ [.panic, .panic] := by
+  refine ⟨{ version := 2, ins := [{ prevHash := [], prevIdx := 0, scriptSig := [], sequence := 0 }], outs := [],
+            witness := none, lockTime := 0 }, .tap {} 0 2 false, ?_⟩
+  intro H
+  constructor
+  · simp [step, taprootSigHash, tapSingleGet, tapSingleFill]
+  · simp [runCalls, step, taprootSigHash, tapSingleGet, tapSingleFill, taprootTail]
+
+
+/-! ### non-vacuity -/
+
+/-- a transaction with two inputs and one output used by the examples -/
+def exTx : Tx :=
+  { version := 2, lockTime := 7, witness := none,
+    ins := [{ prevHash := List.replicate 32 1, prevIdx := 0, scriptSig := [], sequence := 0xffffffff },
+            { prevHash := List.replicate 32 2, prevIdx := 1, scriptSig := [], sequence := 5 }],
+    outs := [{ value := 1000, pkScript := [0x51] }] }
+def exSpent : List TxOut := [{ value := 5000, pkScript := [0x51] }, { value := 6000, pkScript := [] }]
+
+-- legacy_preimage_eq / legacy_defined: the hypotheses are satisfiable, both outcomes occur
+example : (Spec.SigHash.legacy exTx [0xab, 0x51, 0xab, 0xac] 0 1).isSome = true := by decide
+example : Spec.SigHash.legacy exTx [0xab, 0x51, 0xab, 0xac] 1 3 = some .one := by decide
+-- … and code separators really are removed (0xab inside push data is kept)
+example : stripCodeSep [0xab, 0x51, 0x01, 0xab, 0xab, 0xac] = [0x51, 0x01, 0xab, 0xac] := by decide
+-- bip143_preimage_eq: defined for an index in range
+example : (Spec.SigHash.bip143 (fun b => b) exTx [0xac] 5000 1 0x83).isSome = true := by decide
+-- bip341_preimage_eq: defined …
+example : (Spec.SigHash.bip341 (fun b => b) exTx exSpent 0 0x83 (some [0x50]) (some ⟨[], 3⟩)).isSome = true := by decide
+-- bip341_undefined_is_nil / undefined_is_failure: … and undefined (hash type 4; SINGLE on input 1 of 1 output)
+example : Spec.SigHash.bip341 (fun b => b) exTx exSpent 0 4 none none = none := by decide
+example : Spec.SigHash.bip341 (fun b => b) exTx exSpent 1 3 none none = none := by decide
+-- Cache.OK is satisfiable by a non-empty cache (the one left by a BIP143 request)
+example : (witnessSigHash (fun b => b) exTx {} [0xac] 1 0 1).2.hashPrevouts.isSome = true := by decide
+-- cache_transparent: its hypothesis holds for exTx / exSpent
+example : exTx.ins.length ≤ exSpent.length := by decide
 
 end GocoinV.Props.C02
